@@ -1,5 +1,5 @@
 (** * C09 -- interpreter gate names *)
-From QV Require Import Interp ScalarR C09T Form2P DftP C09T2.
+From QV Require Import Interp ScalarR C09T Form2P DftP C09T2 C09T3 C09T4.
 
 Theorem C09_table : C09_table_stmt.
 Proof. exact C09_table_proof. Qed.
@@ -24,3 +24,15 @@ Print Assumptions C09_u2_u1.
 Theorem C09_controlled : C09_controlled_stmt.
 Proof. exact C09_controlled_proof. Qed.
 Print Assumptions C09_controlled.
+
+Theorem C09_controls : C09_controls_stmt.
+Proof. exact C09_controls_proof. Qed.
+Print Assumptions C09_controls.
+
+Theorem C09_named_controls : C09_named_controls_stmt.
+Proof. exact C09_named_controls_proof. Qed.
+Print Assumptions C09_named_controls.
+
+Theorem C09_qelib1 : C09_qelib1_stmt.
+Proof. exact C09_qelib1_proof. Qed.
+Print Assumptions C09_qelib1.
